@@ -548,6 +548,37 @@ type funcResult struct {
 	Trusted   []string
 }
 
+// allocatedFacts: every reference held by a value was allocated before now.
+func (e *Enc) allocatedFacts(st *State, v Val) string {
+	al := e.heapKey(st, "alloc", SInt)
+	var walk func(t types.Type, cs []string) []string
+	walk = func(t types.Type, cs []string) []string {
+		var out []string
+		switch u := t.Underlying().(type) {
+		case *types.Pointer, *types.Map, *types.Chan:
+			out = append(out, app("<", cs[0], al))
+		case *types.Slice:
+			out = append(out, app("<", cs[0], al))
+		case *types.Interface:
+			out = append(out, app("<", cs[1], al))
+		case *types.Struct:
+			for i := 0; i < u.NumFields(); i++ {
+				lo, hi := fieldRange(u, i)
+				out = append(out, walk(u.Field(i).Type(), cs[lo:hi])...)
+			}
+		case *types.Tuple:
+			lo := 0
+			for i := 0; i < u.Len(); i++ {
+				n := len(flatten(u.At(i).Type()))
+				out = append(out, walk(u.At(i).Type(), cs[lo:lo+n])...)
+				lo += n
+			}
+		}
+		return out
+	}
+	return and(walk(v.T, v.C)...)
+}
+
 // inputBound: lengths of inputs and of dependency results are at most maxlen (T3).
 func (e *Enc) inputBound(v Val) string {
 	switch u := v.T.Underlying().(type) {
@@ -564,6 +595,13 @@ func (e *Enc) inputBound(v Val) string {
 			n := len(flatten(u.At(i).Type()))
 			fs = append(fs, e.inputBound(Val{u.At(i).Type(), v.C[lo : lo+n]}))
 			lo += n
+		}
+		return and(fs...)
+	case *types.Struct:
+		var fs []string
+		for i := 0; i < u.NumFields(); i++ {
+			lo, hi := fieldRange(u, i)
+			fs = append(fs, e.inputBound(Val{u.Field(i).Type(), v.C[lo:hi]}))
 		}
 		return and(fs...)
 	}
@@ -725,7 +763,7 @@ func (e *Enc) Encode() {
 	e.decl("maxlen", SInt)
 	e.def("(= maxlen 2305843009213693952)") // 2^61: assumed bound on the length of any input or dependency result (T3)
 	e.decl("maxcap", SInt)
-	e.def("(= maxcap 4611686018427387904)") // 2^62: proved bound on every length the code itself produces
+	e.def("(= maxcap 9223372036854775807)") // MaxInt: proved bound on every length the code itself produces
 	e.findLoops()
 	// loops must have invariants
 	for _, li := range e.loops {
@@ -749,6 +787,7 @@ func (e *Enc) Encode() {
 		e.regs[p] = v
 		e.assume("true", e.typeFacts(v))
 		e.assume("true", e.inputBound(v))
+		e.assume("true", e.allocatedFacts(st, v))
 		if i < len(names) && names[i] != "" {
 			e.paramVals[names[i]] = v
 		}
@@ -865,6 +904,14 @@ func (e *Enc) merge(label string, in []edge) (string, *State) {
 		}
 		if n == len(in) {
 			ks = append(ks, k)
+		} else if strings.HasPrefix(k, "c:") {
+			// a local declared on only some of the paths: on the others it is still its zero value
+			ks = append(ks, k)
+			for _, ed := range in {
+				if _, ok := ed.st.m[k]; !ok {
+					ed.st.m[k] = zeroOfSort(e.sorts[k])
+				}
+			}
 		} else if isHeapKey(k) {
 			// heap keys are created lazily: a missing entry means "still the entry version"
 			ks = append(ks, k)
